@@ -91,7 +91,10 @@ def write_xlsx(wb, path, as_int=False, with_topology=True):
             gap(ws, 'services', i, 12)
             rid = int(s['id']) if s['id'].isdigit() else s['id']
             ws.append([rid, s['src'], s['dst'], s['trx'], s['mode'] or None, cell(s['spacing'], as_int),
-                       cell(s['power'], as_int), cell(s['nch'], True), ' | '.join(s['disjoint']) or None,
+                       cell(s['power'], as_int), cell(s['nch'], True),
+                       # a single all-digit id is a numeric cell, as a spreadsheet program stores it
+                       (int(s['disjoint'][0]) if len(s['disjoint']) == 1 and s['disjoint'][0].isdigit()
+                        else ' | '.join(s['disjoint']) or None),
                        ' | '.join(s['path']) or None, s['loose'] or None, cell(s['bw'], as_int)])
     book.save(path)
 
